@@ -295,3 +295,34 @@ class Opaque:
 
     def __repr__(self):
         return '<Opaque %s>' % self.what
+
+
+class FmtStr(Opaque):
+    """Rope produced by formatting symbolic values: a list of parts
+    ('lit', text) | ('fmt', template, args, kwargs).  Lets a contract inspect WHAT is
+    printed WHERE without modelling number formatting."""
+
+    def __init__(self, parts):
+        Opaque.__init__(self, 'formatted string')
+        self.parts = []
+        for p in parts:      # canonical form: adjacent literals merged
+            if p[0] == 'lit' and self.parts and self.parts[-1][0] == 'lit':
+                self.parts[-1] = ('lit', self.parts[-1][1] + p[1])
+            elif not (p[0] == 'lit' and p[1] == ''):
+                self.parts.append(p)
+
+    @staticmethod
+    def of(v):
+        if isinstance(v, FmtStr):
+            return v.parts
+        if isinstance(v, str):
+            return [('lit', v)] if v else []
+        if isinstance(v, SStr):
+            return [('fmt', '{}', [v], {})]
+        raise Unsupported('concatenation of string with %r' % type(v).__name__)
+
+    def fmt_parts(self):
+        return [p for p in self.parts if p[0] == 'fmt']
+
+    def __repr__(self):
+        return '<FmtStr %d parts>' % len(self.parts)
